@@ -410,6 +410,51 @@ func VerifC05Pipeline() {
 	for _, hash := range btm.order {
 		verifAssert(spy.coinbase[hash] == 1, "block-recorded-as-processed-without-being-processed-once")
 	}
+	if verifParam("reorg", 0) == 1 && nondetBool("reorg-after-sync") {
+		// the reader is in sync; a heavier fork then replaces blocks that were already processed
+		f := pick("fork-height", n) // last common height 0..n-1
+		prev := chain[f]
+		newChain := append([]bitcoin.Hash32(nil), chain[:f+1]...)
+		for i := f + 1; i <= n+1; i++ {
+			txs := []*wire.MsgTx{mkTx(1000 + 10*i), mkTx(1000 + 10*i + 1)}
+			hd := &wire.BlockHeader{Version: 1, Timestamp: uint32(1600100000 + 600*i), Bits: 0x1d00ffff, Nonce: uint32(500 + i), PrevBlock: prev}
+			hd.MerkleRoot = refMerkleRoot([]bitcoin.Hash32{*txs[0].TxHash(), *txs[1].TxHash()})
+			if err := repo.ProcessHeader(ctx, hd); err != nil {
+				verifAssert(false, "setup-fork-header-refused")
+				return
+			}
+			prev = *hd.BlockHash()
+			newChain = append(newChain, prev)
+			req.headers[prev] = hd
+			req.txs[prev] = txs
+		}
+		tipNow := repo.LastHash()
+		verifAssert(tipNow.Equal(&prev), "setup-fork-did-not-become-best")
+		before := len(btm.order)
+		m.TriggerBlockSynchronize(ctx)
+		m.syncBlocksWait.Wait()
+		// every block of the new best chain from the start height is processed, the new ones in
+		// ascending order, none of the already recorded ones again
+		first := f + 1
+		if first < start {
+			first = start
+		}
+		last := first - 1
+		for _, hash := range btm.order[before:] {
+			ht := -1
+			for h := range newChain {
+				if newChain[h].Equal(&hash) {
+					ht = h
+				}
+			}
+			verifAssert(ht == last+1, "blocks-not-recorded-in-ascending-contiguous-order:after-reorg")
+			last = ht
+		}
+		for h := start; h < len(newChain); h++ {
+			verifAssert(btm.done[newChain[h]], "reader-idle-with-unprocessed-best-chain-block:after-reorg")
+		}
+		verifReach("reorged-after-sync")
+	}
 	close(interrupt)
 	runDone.Wait()
 	verifReach("done")
